@@ -188,6 +188,9 @@ class Scan(Scenario):
                 # distinct rows needed to designate one of them by value
                 vals = [tuple(float(table[c][r]) for c in self.cols) for r in range(self.nrows)]
                 ctx.assume(len(set(vals)) == len(vals))
+        if self.scan_kind == "mcscan":
+            self._mcscan(ctx, fm, m, names, base_p, base_y, table, labels, sym)
+            return
         tps = [0.0, 0.25, 0.5]
         proto_steps = None
         if self.scan_kind in ("proto", "ptc"):
@@ -275,6 +278,36 @@ class Scan(Scenario):
                         ctx.eq(f"{what}: [{j},{c}]", got, expv[c])
 
 
+def _mcscan(self, ctx, fm, m, names, base_p, base_y, table, labels, sym):
+    """mc.scan_steady_state: a steady-state scan over initial values nested in a Monte-Carlo scan over parameters."""
+    from mxlpy import mc
+
+    mc_to_scan = pd.DataFrame({"k": table["k"]}, index=labels, dtype=object if sym else float)
+    inner = [ctx.real(f"inner{r}_x") for r in range(2)]
+    to_scan = pd.DataFrame({"x": inner}, dtype=object if sym else float)
+    with ctx.impl("mc.scan_steady_state"):
+        res = mc.scan_steady_state(m, to_scan=to_scan, mc_to_scan=mc_to_scan)
+        frames = {"variables": res.variables, "fluxes": res.fluxes}
+    flat = [(r, j) for r in range(self.nrows) for j in range(2)]
+    for what, df in frames.items():
+        ctx.true(f"{what}: one row per (Monte-Carlo row, scan row), in input order", len(df) == len(flat), info=f"{len(df)} vs {len(flat)}")
+        if len(df) != len(flat):
+            continue
+        for pos, (r, j) in enumerate(flat):
+            label = df.index[pos]
+            ctx.true(f"{what}: index[{pos}] carries the Monte-Carlo row label", label[0] == labels[r], info=str(label))
+            ctx.eq(f"{what}: index[{pos}] carries the scanned value", label[1], inner[j])
+            p = {"k": table["k"][r]}
+            xs = fm.flow(p, [inner[j]], 0.0, 100.0, sym)[0]
+            if what == "variables":
+                ctx.eq(f"variables: [{pos},x]", df["x"].iloc[pos], xs)
+            else:
+                ctx.eq(f"fluxes: [{pos},v]", df["v"].iloc[pos], p["k"] * xs)
+
+
+Scan._mcscan = _mcscan
+
+
 def scenarios(tier, seed):
     scs = []
     kinds = ["ss", "tc", "proto", "ptc"]
@@ -293,6 +326,7 @@ def scenarios(tier, seed):
     for sk in (["ss", "tc"] if tier == "quick" else kinds):
         for par in (True,):
             scs.append(Scan("decay", sk, ("k", "x") if sk in ("ss", "tc") else ("x",), 2, par, via_mc=True))
+    scs.append(Scan("decay", "mcscan", ("k",), 2, True))
     # minimal scenarios: parameter defined by an initial assignment of a scanned variable
     for par in (False, True):
         scs.append(Scan("ia_decay", "tc", ("x",), 2, par))
